@@ -6,6 +6,7 @@
 
 mod c01;
 mod c03;
+mod c05;
 mod c17;
 mod common;
 
@@ -28,6 +29,7 @@ fn main() {
         let rest: Vec<String> = args[3..].to_vec();
         match args[2].as_str() {
             "c17" => c17::worker(&rest),
+            "rec" => c05::worker(&rest),
             _ => usage(),
         }
         return;
@@ -62,6 +64,9 @@ fn main() {
             "C01" => c01::run(ctx, c01::Mode::C01),
             "C02" => c01::run(ctx, c01::Mode::C02),
             "C04" => c01::run(ctx, c01::Mode::C04),
+            "C05" => c05::run(ctx, c05::Mode::C05),
+            "C06" => c05::run(ctx, c05::Mode::C06),
+            "C07" => c05::run(ctx, c05::Mode::C07),
             "C03" => c03::run(ctx, c03::Mode::C03),
             "C16" => c03::run(ctx, c03::Mode::C16),
             "C17" => c17::run(ctx),
